@@ -82,4 +82,10 @@ def copyTail? (dst src : List UInt8) (off : Int64) : Option (List UInt8 × Int64
     some (t.take n ++ dst.drop n, Int64.ofNat n)
   else none
 
+/-- ninth generation: `X = append(X, v)` with the SAME slice on both sides, `X` rendered as a list:
+    the elements of the result are those of `X` followed by `v`, whether or not Go reallocates. What
+    the rendering does not show is the write into the shared backing array when `len < cap`: faithful
+    while no other live slice shares `X`'s array beyond `len(X)` (notes/LEAF.md, generation 9). -/
+def appendOwn {α : Type} (xs : List α) (v : α) : List α := xs ++ [v]
+
 end ScionTime.Go
